@@ -240,3 +240,98 @@ def replay_case(case, idx, seed, tier, want_trace=True, want_covers=False, famil
 def cz_rng(seed, idx, fam):
     from .common import rng_for
     return rng_for(seed, idx, fam)
+
+
+def regroup_case(idx, seed):
+    """The SAME Op objects used to build operators for two models that group the same DoFs into sites differently
+    (separate one-electron sites vs. one multi-electron site), in both orders: inputs must not carry state between calls."""
+    from renormalizer.model import Model, Op, basis as ba
+    from renormalizer.mps import Mpo
+    from .common import rng_for
+    rng = rng_for(seed, "regroup", idx)
+    res = {"viol": [], "builds": 0}
+    e = [f"e{i}" for i in range(4)]
+    cr = np.array([[0., 0.], [1., 0.]])
+    an = cr.T
+    def model_a():
+        return [ba.BasisSimpleElectron(e[0]), ba.BasisSimpleElectron(e[1]), ba.BasisSHO("v", 1.1, 3), ba.BasisSimpleElectron(e[2]), ba.BasisSimpleElectron(e[3])]
+    def model_b():
+        return [ba.BasisMultiElectronVac([e[0], e[1]]), ba.BasisSHO("v", 1.1, 3), ba.BasisMultiElectronVac([e[2], e[3]])]
+    bm = cz._b(3)
+    xv = np.sqrt(0.5 / 1.1) * (bm + bm.T)
+    # random terms: hopping e_i^+ e_j (i != j), number e_i^+ e_i, optionally times x on the vibration
+    pairs = [(i, j) for i in range(4) for j in range(4)]
+    chosen = [pairs[k] for k in rng.choice(len(pairs), size=int(rng.integers(2, 6)), replace=False)]
+    terms = []
+    for (i, j) in chosen:
+        f = float(rng.uniform(-1, 1))
+        withx = rng.random() < 0.4
+        terms.append((i, j, f, withx))
+    def ops():
+        out = []
+        for i, j, f, withx in terms:
+            o = Op(r"a^\dagger a", [e[i], e[j]], f, qn=[1, -1])
+            if withx:
+                o = o * Op("x", "v", 1.0, qn=0)
+            out.append(o)
+        return out
+    def ref_a():
+        dims = [2, 2, 3, 2, 2]
+        pos = {0: 0, 1: 1, 2: 3, 3: 4}
+        tot = np.zeros((int(np.prod(dims)),) * 2)
+        for i, j, f, withx in terms:
+            mats = [np.eye(d) for d in dims]
+            if i == j:
+                mats[pos[i]] = cr @ an
+            else:
+                mats[pos[i]] = cr
+                mats[pos[j]] = an
+            if withx:
+                mats[2] = xv
+            m = np.array([[1.0]])
+            for x in mats:
+                m = np.kron(m, x)
+            tot += f * m
+        return tot
+    def ref_b():
+        dims = [3, 3, 3]
+        tot = np.zeros((27, 27))
+        for i, j, f, withx in terms:
+            mats = [np.eye(3) for _ in dims]
+            si, sj = (0 if i < 2 else 2), (0 if j < 2 else 2)
+            ki, kj = 1 + (i % 2), 1 + (j % 2)
+            if si == sj:
+                m_ = np.zeros((3, 3)); m_[ki, kj] = 1.0
+                mats[si] = m_
+            else:
+                m1 = np.zeros((3, 3)); m1[ki, 0] = 1.0
+                m2 = np.zeros((3, 3)); m2[0, kj] = 1.0
+                mats[si] = m1
+                mats[sj] = m2
+            if withx:
+                mats[1] = xv
+            m = np.array([[1.0]])
+            for x in mats:
+                m = np.kron(m, x)
+            tot += f * m
+        return tot
+    for order in ("AB", "BA"):
+        for algo in ALGOS:
+            o = ops()
+            for which in order:
+                basis = model_a() if which == "A" else model_b()
+                ref = ref_a() if which == "A" else ref_b()
+                try:
+                    mpo = Mpo(Model(basis, []), o, algo=algo)
+                    res["builds"] += 1
+                    err = relerr(mpo.todense(), ref)
+                except Exception as ex:
+                    res["viol"].append((f"C01:regroup-raises:{algo}", f"building model {which} (order {order}) with re-used Op objects raised {type(ex).__name__}: {ex}",
+                                        {"idx": idx, "terms": terms, "order": order, "which": which}))
+                    break
+                if err > 1e-9:
+                    res["viol"].append((f"C01:regroup-denotation:{algo}",
+                                        f"operator built for site grouping {which} (order {order}) from Op objects already used for the other grouping is wrong: rel.err {err:.2e}",
+                                        {"idx": idx, "terms": terms, "order": order, "which": which}))
+                    break
+    return res
